@@ -81,10 +81,16 @@ static void run() {
         }
         for (size_t b = 0; b < nbits; b++) { if (idx++ % a.nshards != a.shard) continue; Bytes d = raw; flip(d, b); run_case({true, mem16, true, d}, "single-bit");
             for (int mode = 1; mode <= 2; mode++) { Case c{true, mem16, true, d}; c.kind = "single-bit"; c.mode = mode; run_case(c, "single-bit"); } }
+#ifdef VP_LIGHT
+        if (0)   // additional build configurations: single-bit, truncation, extension and option phases only
+#endif
         for (size_t b1 = 16; b1 < nbits; b1++) for (size_t b2 = b1 + 1; b2 < nbits; b2++) {
             if (idx++ % a.nshards != a.shard) continue;
             Bytes d = raw; flip(d, b1); flip(d, b2); run_case({true, mem16, true, d}, "two-bit");
         }
+#ifdef VP_LIGHT
+        if (0)
+#endif
         for (int order = 0; order < 2; order++)   // 0: bits numbered LSB-first within each octet (the order a UART puts them on the wire); 1: MSB-first numbering
             for (size_t L = 2; L <= 16; L++) for (size_t b = 16; b + L <= nbits; b++) {
                 if (idx++ % a.nshards != a.shard) continue;
